@@ -201,6 +201,11 @@ func RunC19(r *core.Run) {
 			ls := [][]byte{}
 			for i := 0; i < nh; i++ {
 				t := m.Hdrs[i].Type
+				if t == ref.HdrExpires && typeCount(m, t) > 1 {
+					// a repeated Expires may carry any text; removing the first would make it the typed one
+					ls = append(ls, lines[i])
+					continue
+				}
 				if !fingerprinted(t, invite) && t != ref.HdrContact && t != ref.HdrCLen && i != nh-1 && rr.Intn(2) == 0 {
 					continue
 				}
@@ -352,4 +357,13 @@ func RunC19(r *core.Run) {
 	})
 	r.Require("C19 bases with variants", r.Counter("bases_with_variants"), 20000)
 	r.Require("C19 truncated indications", r.Counter("truncated_indications"), 500)
+}
+
+func typeCount(m *gen.MsgSpec, t int) (n int) {
+	for i := range m.Hdrs {
+		if m.Hdrs[i].Type == t {
+			n++
+		}
+	}
+	return
 }
